@@ -242,13 +242,19 @@ RECURSIVE OffsetBad(_, _, _, _)
 OffsetBad(d, x, j, off) ==
   IF j > Len(x.fields) THEN FALSE
   ELSE LET f == x.fields[j]
-           needs == /\ f.kind \in {"payload", "body", "typedef", "array", "padding", "checksum_start"}
-                    /\ ~(f.kind = "typedef" /\ KindOf(d, f.type) = "enum")
+           (* Ref (Optional): "an optional field must start on a byte boundary, and have a size that is an *)
+           (* integral number of bytes" - an optional scalar or enum field is not a bit-field              *)
+           needs == \/ IsOptional(f)
+                    \/ /\ f.kind \in {"payload", "body", "typedef", "array", "padding", "checksum_start"}
+                       /\ ~(f.kind = "typedef" /\ KindOf(d, f.type) = "enum")
            sz == FieldSizeF(d, x, j, 8)
        IN (needs /\ off % 8 # 0) \/ OffsetBad(d, x, j + 1, IF sz.k = "static" THEN off + sz.n ELSE 0)
 V51(d) == LET n == InlineGroups(d) IN \E i \in PS(n) : OffsetBad(n, n.decls[i], 1, 0)
 V52(d) == LET n == InlineGroups(d) IN \E i \in PS(n) : \E j \in Fields(n.decls[i]) :
-            n.decls[i].fields[j].kind = "array" /\ n.decls[i].fields[j].type = "" /\ n.decls[i].fields[j].width % 8 # 0
+            LET f == n.decls[i].fields[j] IN
+            \/ f.kind = "array" /\ f.type = "" /\ f.width % 8 # 0
+            \/ IsOptional(f) /\ f.kind = "scalar" /\ f.width % 8 # 0
+            \/ IsOptional(f) /\ f.kind = "typedef" /\ KindOf(n, f.type) = "enum" /\ DeclOf(n, f.type).width % 8 # 0
 StaticSum(d, x) == SumSeq([j \in Fields(x) |-> LET s == FieldSizeF(d, x, j, 8) IN IF s.k = "static" THEN s.n ELSE 0])
 V53(d) == LET n == InlineGroups(d) IN \E i \in PS(n) : StaticSum(n, n.decls[i]) % 8 # 0
 
